@@ -306,14 +306,15 @@ def check(ctx):
         for what, nodes in (("_close_proc()", clp), ("ended = True", ended)):
             ok, path = bool(nodes), None
             if ok:
-                ok, path = ecfg.must_pass(ecfg.entry, lambda m_, nodes=nodes: m_ in nodes or m_ in already)
+                # (the already-ended way out may be a `return` under the flag or the arm of `if not self.ended:` not taken)
+                ok, path = ecfg.must_pass(ecfg.entry, lambda m_, nodes=nodes: m_ in nodes or m_ in already, skip_edge=ecfg.assume_edges([("self.ended", False)]))
             verdicts[what].append((ok, q_, en, ecfg.fmt_path(path) if not ok and path else None))
             if q_ == end_chain[0]:
                 # ... and seen from end() itself no *normal* way out goes round it (the function that always closes
                 # must not be one that end() calls only sometimes)
                 nok, npath = bool(nodes), None
                 if nok:
-                    nok, npath = ecfg.must_pass(ecfg.entry, lambda m_, nodes=nodes: m_ in nodes or m_ in already, exits=("exit",))
+                    nok, npath = ecfg.must_pass(ecfg.entry, lambda m_, nodes=nodes: m_ in nodes or m_ in already, exits=("exit",), skip_edge=ecfg.assume_edges([("self.ended", False)]))
                 from_root[what] = (nok, en, ecfg.fmt_path(npath) if not nok and npath else None)
     for what, vs in verdicts.items():
         good = [v for v in vs if v[0]]
